@@ -54,6 +54,7 @@ func RunC14(tier string) int {
 			case 3:
 				if len(t.AllOuts()) > 0 {
 					t.OmitIf = "markers/omit_" + t.MID()
+					t.Dangle = r.Chance(1, 2) // a dangling symlink at the path instead of nothing
 					if outs := t.AllOuts(); len(outs) >= 2 && r.Chance(1, 2) {
 						// only one of the declared outputs goes missing
 						t.Omit = outs[r.Intn(len(outs))].Path
